@@ -161,10 +161,23 @@ class Runner:
                 return "ok"
             gi, b, k = who
             out = outc[gi][b - 1]["f"][k - 1] if k - 1 < len(outc[gi][b - 1]["f"]) else "ok"
-            calls.append((gi, b, k, out))
+            calls.append([gi, b, k, out])
             return out
+
+        def natural(result):
+            """the routine itself may produce a value that is non-finite once stored (e.g. overflow in the stored dtype):
+            that is the environment's outcome "nan" for this call, whatever was planned"""
+            gi, b, k, out = calls[-1]
+            if gi is None or out != "ok":
+                return
+            stored = self._tensors[gi].get((b, f"root{k}"))
+            if stored is None:
+                return
+            st_ = stored.to_local() if hasattr(stored, "to_local") else stored
+            if not bool(torch.isfinite(result.detach().to(st_.dtype)).all()):
+                calls[-1][3] = "nan"
         exc = None
-        with faults.patched_keyed(decide):
+        with faults.patched_keyed(decide, natural):
             try:
                 opt.step()
             except Exception as e:  # noqa
@@ -222,7 +235,12 @@ class Runner:
                         mism.append((f"g{gi+1}.stored_root_finite.b{b}.{name}", "finite", "non-finite"))
             if any(c[0] is None for c in calls):
                 mism.append((f"g{gi+1}.unidentified_matrix_call", "call for a known factor", "unknown matrix"))
-        self.trace.append({"ev": "Step", "present": present, "outc": outc, "obs": obs_all})
+        # the trace carries the outcomes the environment actually produced (planned faults + natural non-finite results)
+        outc_obs = [[{"inf": oc["inf"], "f": list(oc["f"])} for oc in go] for go in outc]
+        for (g2, b, k, o) in calls:
+            if g2 is not None and k - 1 < len(outc_obs[g2][b - 1]["f"]):
+                outc_obs[g2][b - 1]["f"][k - 1] = o
+        self.trace.append({"ev": "Step", "present": present, "outc": outc_obs, "obs": obs_all})
         # ---- numeric reference, driven by the spec's control decisions ----
         if self.numeric and expected is not None and not self.poisoned:
             for gi, g in enumerate(draw["groups"]):
